@@ -300,6 +300,7 @@ F('set-inline', '{c}.set(a => {v}, b => {w})', lambda d, v, w: M.dict_set(d, ('a
   fn='dict_set_many_inline', v='val', w='val2')
 F('keys', '{c}.keys()', M.dict_keys, recv='dict', fn='dict_keys')
 F('values', '{c}.values()', M.dict_values, recv='dict', fn='dict_values', unordered=True)
+F('values-len', '{c}.values().len()', lambda d: len(d), recv='dict', fn='dict_values|len')
 F('items', '{c}.items().toList()', M.dict_items, recv='dict', fn='dict_items', unordered=True)
 F('in', '{v} in {c}', lambda c, v: M.in_(v, c), fn='in_', v='val')
 F('contains', '{c}.contains({v})', lambda c, v: M.in_(v, c), v='val')
